@@ -259,7 +259,17 @@ def _kind(f):
 
 def _read_stdin(stdin):
     if stdin is None:
-        return None
+        # the child inherits the parent's descriptor 0 (whatever it reads is taken from the parent's own standard input)
+        try:
+            chunks = []
+            while True:
+                b = os.read(0, 65536)
+                if not b:
+                    break
+                chunks.append(b)
+            return b''.join(chunks).decode('utf-8', 'replace')
+        except OSError:
+            return None
     if isinstance(stdin, int):
         if stdin < 0:
             return ''
